@@ -36,7 +36,7 @@ def main():
         })
     man = {
         "version": 1,
-        "setup_cmd": "cd lean && lake build D42 d42model",
+        "setup_cmd": "/venv/bin/python tools_regen.py && cd lean && lake build D42 d42model",
         "hooks": {"guard": "D42_VERIF", "enable": "no source hooks are needed: randomness, clock and uuid sources are "
                   "rebound by the harness in its own process (constructor injection + module globals)",
                   "baseline_off_cmd": "cd /repo && /venv/bin/python -m pytest -ra -q -p no:cacheprovider --timeout=900 --continue-on-collection-errors",
